@@ -42,6 +42,8 @@ from . import units as MU
 ONE = D.ONE
 PREFIX_BY_NAME = {str(p.name): p for p in _SYM_PREFIXES.values()}
 FUNCS = {"exp": sympy.exp, "sin": sympy.sin, "cos": sympy.cos, "log": sympy.log}
+# two-argument functions (every argument must be dimensionless, not only the last one)
+FUNCS2 = {"atan2": sympy.atan2, "besselj": sympy.besselj}
 
 
 class Discard(Exception):
@@ -346,6 +348,13 @@ class Sem:
         if any(is_special(a.v) for a in args):
             raise Discard("function of an infinite/NaN argument")
         x = args[0]
+        if name in FUNCS2:
+            if len(args) != 2:
+                raise Discard("two-argument function with another arity")
+            v = FUNCS2[name](args[0].v, args[1].v)
+            if v is S.ComplexInfinity or v is S.NaN or v.has(sympy.AccumBounds):
+                raise Discard("function value undefined")
+            return Val(v, ONE, args[0].inexact or args[1].inexact, False, 1 + args[0].mag + args[1].mag)
         v = FUNCS[name](x.v)
         if v is S.ComplexInfinity or v is S.NaN or v.has(sympy.AccumBounds):
             raise Discard("function value undefined")
@@ -472,7 +481,7 @@ def jeval(t: list[Any], sem: Sem, env: dict[str, Any] | None = None) -> Val:
     if op in ("min", "max"):
         return sem.minmax([jeval(x, sem, env) for x in t[1:]], op)
     if op == "fn":
-        return sem.fn(t[1], [jeval(t[2], sem, env)])
+        return sem.fn(t[1], [jeval(x, sem, env) for x in t[2:]])
     if op == "sym":
         sem.refuse("symbol")
         return Val(S.One, ONE)
@@ -669,8 +678,8 @@ class Builder:
             except ValueError as exc:  # SymPy itself refuses Min/Max of NaN
                 raise Discard("nan under min/max") from exc
         if op == "fn":
-            f = FUNCS[t[1]]
-            return f(kids[0]) if ev else f(kids[0], evaluate=False)
+            f = FUNCS[t[1]] if t[1] in FUNCS else FUNCS2[t[1]]
+            return f(*kids) if ev else f(*kids, evaluate=False)
         raise ValueError(f"unknown op {op}")
 
 
@@ -756,7 +765,7 @@ def _walk_node(e: Any, sem: Sem, leaves: dict[int, Val], atoms: Any) -> Val | No
         return sem.abs(walk(e.args[0], sem, leaves, atoms))
     if isinstance(e, MinMaxBase):
         return sem.minmax([walk(a, sem, leaves, atoms) for a in e.args], "min" if isinstance(e, sympy.Min) else "max")
-    for name, f in FUNCS.items():
+    for name, f in list(FUNCS.items()) + list(FUNCS2.items()):
         if isinstance(e, f):
             return sem.fn(name, [walk(a, sem, leaves, atoms) for a in e.args])
     return None
